@@ -168,6 +168,20 @@ def odd_edits(raw, rnd, spec, k=3):
             ds = declared_defenses(spec, d['assets'][a].get('type'))
             if ds: d['assets'][a].setdefault('defenses', {})[rnd.choice(ds)] = rnd.choice([1.5, -0.25, 2]); return
         return False
+    def spelled(k_):
+        """another spelling of an integer key that CPython's `int` reads (white space around it, a leading `+`, a Unicode
+        digit in front): `String.toInt?` of the preludes does not - the generated `_from_dict` must answer "not modelled"
+        (`OtherError`), never `ValueError` (finding of the legacy helper, repaired in `Py/PyInt.lean`)"""
+        k_ = str(k_)
+        forms = [' ' + k_, k_ + '\t', k_ + '\n', '\xa0' + k_ + ' ', '\u0665' + k_.lstrip('-')] + (['+' + k_] if not k_.startswith('-') else [' ' + k_])
+        return rnd.choice(forms)
+    def spell_member(d):
+        e = d['associations'][rnd.choice(assocs)]; f_ = rnd.choice(list(e[cls_of(e)])); t = e[cls_of(e)][f_]
+        if isinstance(t, list) and t: t[rnd.randrange(len(t))] = spelled(t[0])
+        elif not isinstance(t, list): e[cls_of(e)][f_] = spelled(t)
+        else: return False
+    def spell_ep(d):
+        a = d['attackers'][next(a for a in atts if d['attackers'][a]['entry_points'])]['entry_points']; k_ = rnd.choice(list(a)); rename_key(a, k_, spelled(k_))
     def retype_keys(d):
         for top in ('assets', 'attackers'):
             items = [((int(k_) if isinstance(k_, str) else str(k_)), v) for k_, v in d[top].items()]; d[top] = dict(items)
@@ -178,6 +192,9 @@ def odd_edits(raw, rnd, spec, k=3):
             ('assets:reversed', lambda d: d.update(assets=dict(reversed(list(d['assets'].items()))))),
             ('attackers:reversed', lambda d: d.update(attackers=dict(reversed(list(d['attackers'].items())))) if atts else False),
             ('keys:retyped', retype_keys)]
+    if raw['assets']: menu += [('key-spelling:asset', lambda d: (lambda k_: rename_key(d['assets'], k_, spelled(k_)))(rnd.choice(list(d['assets']))))]
+    if assocs: menu += [('key-spelling:member', spell_member)]
+    if atts: menu += [('key-spelling:attacker', lambda d: (lambda k_: rename_key(d['attackers'], k_, spelled(k_)))(rnd.choice(atts))), ('key-spelling:entry-point', spell_ep)]
     if full:
         menu += [('drop:asset.name', lambda d: d['assets'][rnd.choice(full)].pop('name')), ('drop:asset.type', lambda d: d['assets'][rnd.choice(full)].pop('type')),
                  ('unknown-type', lambda d: d['assets'][rnd.choice(full)].update(type='NoSuchAsset')),
